@@ -3,7 +3,7 @@ CFG = {
         "props": ["EraVerif.Props.C18"],
         "required_theorems": ["batch_accepted_iff", "accepted_batch_result", "rejected_batch_no_change",
                               "duplicate_key_rejected", "forged_fresh_member_rejected",
-                              "stale_or_nonmember_forgery_tolerated", "update_changes_only_to_authentic_newer",
+                              "stale_or_nonmember_forgery_tolerated", "stale_skipped_without_verify", "update_changes_only_to_authentic_newer",
                               "replacement_strictly_newer", "nonmember_ignored", "nonmember_entries_droppable",
                               "stored_are_authentic", "forged_never_stored", "stored_are_members",
                               "run_never_decreases", "announce_strictly_newer", "announce_wraps_at_u64_max",
